@@ -388,8 +388,11 @@ const W = 15 * time.Second // watchdog for events that normally take microsecond
 func (c *CConn) Quiesce(d time.Duration) bool {
 	deadline := time.Now().Add(d)
 	for c.GC != nil {
+		// the server's reader has consumed everything sent and is back in Read (a request is linked into the
+		// connection before the reader loops), and nothing is outstanding
+		idle := c.SrvE.ReaderIdle() || c.SrvE.Closed() || c.SrvE.PeerGone()
 		p, _ := c.GC.VerifCounts()
-		if p == 0 {
+		if idle && p == 0 && (c.SrvE.ReaderIdle() || c.SrvE.Closed() || c.SrvE.PeerGone()) {
 			return true
 		}
 		if time.Now().After(deadline) {
